@@ -18,6 +18,10 @@ fn annotations(i: usize) -> Option<Vec<String>> {
         5 => Some(vec!["#[derive(AsnType, Debug, Clone, Decode, Encode, PartialEq, Eq, Hash, PartialOrd,)]".into()]),
         // `Copy`, which the backend adds on its own to BOOLEAN / NULL / ENUMERATED types
         6 => Some(vec!["#[derive(AsnType, Debug, Clone, Copy, Decode, Encode, PartialEq, Eq, Hash)]".into()]),
+        // one element that holds a derive list and a further attribute: both must arrive
+        7 => Some(vec!["#[derive(AsnType, Debug, Clone, Decode, Encode, PartialEq, Eq, Hash, PartialOrd)] #[cfg_attr(any(), verif_marker)]".into()]),
+        // derives named by a path / with an underscore next to a required one (the path resolves: `core::cmp::PartialOrd`)
+        8 => Some(vec!["#[derive(AsnType, Debug, Clone, Decode, Encode, PartialEq, Eq, Hash, core::cmp::PartialOrd)]".into(), "#[derive(Debug, core::cmp::Ord)]".into()]),
         // a required derive (Debug, Clone) and a non-required one (Eq) named on two lines: each must come out once
         _ => Some(vec!["#[derive(AsnType, Debug, Clone, Decode, Encode, PartialEq, Eq, Hash)]".into(), "#[derive(Debug, Clone, Eq, PartialOrd)]".into()]),
     }
@@ -46,7 +50,7 @@ fn all_points() -> Vec<Point> {
     let mut v = vec![];
     for flags in 0..16u8 {
         for imports in 0..3 {
-            for ann in 0..7 {
+            for ann in 0..9 {
                 v.push(Point { flags, imports, ann });
             }
         }
@@ -69,7 +73,7 @@ fn edges(points: &[Point]) -> Vec<(Point, Point, &'static str)> {
             }
         }
         if p.ann == 0 {
-            for a in 1..7 {
+            for a in 1..9 {
                 e.push((*p, Point { ann: a, ..*p }, "type_annotations"));
             }
         }
@@ -120,6 +124,17 @@ fn strip_attrs(text: &str) -> String {
     }
 }
 
+/// Every path of a type spelling reduced to its last segment, also inside generic arguments
+/// (`SequenceOf<super::mb::Tb>` and `SequenceOf<Tb>` are one payload type).
+fn last_segments(p: &str) -> String {
+    let mut key: String = p.split_whitespace().collect();
+    while let Some(at) = key.find("::") {
+        let start = key[..at].rfind(|c: char| !(c.is_alphanumeric() || c == '_')).map_or(0, |i| i + 1);
+        key.replace_range(start..at + 2, "");
+    }
+    key
+}
+
 const REQUIRED: [&str; 6] = ["AsnType", "Debug", "Clone", "Decode", "Encode", "PartialEq"];
 
 fn judge(coord: &str, lo: &Point, hi: &Point, a: &Items, b: &Items) -> Vec<(String, String)> {
@@ -146,7 +161,7 @@ fn judge(coord: &str, lo: &Point, hi: &Point, a: &Items, b: &Items) -> Vec<(Stri
                     if it.attrs.has("choice") {
                         let norm = |p: &str| -> String {
                             let p = p.strip_prefix("Box<").and_then(|x| x.strip_suffix('>')).unwrap_or(p);
-                            p.rsplit("::").next().unwrap_or(p).to_string()
+                            last_segments(p)
                         };
                         let mut count: BTreeMap<String, usize> = BTreeMap::new();
                         for v in variants {
@@ -171,7 +186,7 @@ fn judge(coord: &str, lo: &Point, hi: &Point, a: &Items, b: &Items) -> Vec<(Stri
                     Kind::Impl { trait_: Some(t), for_ } if t.starts_with("From<") => {
                         let p = t.strip_prefix("From<").and_then(|x| x.strip_suffix('>')).unwrap_or(t);
                         let p = p.strip_prefix("Box<").and_then(|x| x.strip_suffix('>')).unwrap_or(p);
-                        let p = p.rsplit("::").next().unwrap_or(p).to_string();
+                        let p = last_segments(p);
                         if !got.insert((k.0.clone(), p.clone(), for_.clone())) {
                             out.push(("from-impl-duplicate".into(), describe(k, it)));
                         }
@@ -284,6 +299,23 @@ fn judge(coord: &str, lo: &Point, hi: &Point, a: &Items, b: &Items) -> Vec<(Stri
                         if n != 1 {
                             out.push((format!("required-derive-count-{}", if n == 0 { "0" } else { ">1" }), format!("{}: derive `{r}` occurs {n} times", describe(k, it))));
                             break;
+                        }
+                    }
+                    // everything the setting asks for arrives: each derive named in it (compared by last path segment) and the
+                    // marker attribute wherever the setting contains it
+                    if let Some(ann) = annotations(hi.ann) {
+                        for a in &ann {
+                            if let Some(list) = a.split_once("derive(").map(|x| x.1.split(')').next().unwrap_or("")) {
+                                for d in list.split(',').map(|d| d.trim()).filter(|d| !d.is_empty()) {
+                                    let want = d.rsplit("::").next().unwrap_or(d);
+                                    if !it.attrs.derives.iter().any(|x| x.replace(' ', "").rsplit("::").next() == Some(want)) {
+                                        out.push(("requested-derive-missing".into(), format!("{}: derive `{d}` of the type_annotations setting is not emitted", describe(k, it))));
+                                    }
+                                }
+                            }
+                            if a.contains("verif_marker") && !it.attrs.other.iter().any(|o| o.contains("verif_marker")) {
+                                out.push(("requested-attribute-missing".into(), format!("{}: the attribute `#[cfg_attr(any(), verif_marker)]` of the type_annotations setting is not emitted", describe(k, it))));
+                            }
                         }
                     }
                     // no derive at all may be emitted twice (conflicting impls)
@@ -405,7 +437,7 @@ pub fn run(ctx: &Ctx) -> Report {
         let mut v: Vec<Point> = all.iter().filter(|p| p.imports == 0 && p.ann == 0).cloned().collect();
         for f in [0u8, 5, 10, 15] {
             for i in 0..3 {
-                for a in 0..7 {
+                for a in 0..9 {
                     v.push(Point { flags: f, imports: i, ann: a });
                 }
             }
